@@ -386,11 +386,11 @@ def mol_to_sdf(mol, out_file, conf_num=None):
         conf_ids = [conf.GetId() for conf in mol.GetConformers()]
         conf_energies = get_conformer_energies_from_mol(mol)
         mol.ClearProp(CONF_ENERGIES_PROPNAME)
-        for i in conf_ids:
-            if conf_num not in {-1, None} and i >= conf_num:
+        for j, i in enumerate(conf_ids):
+            if conf_num not in {-1, None} and j >= conf_num:
                 break
             try:
-                conf_energy = conf_energies[i]
+                conf_energy = conf_energies[j]
                 mol.SetProp(CONF_ENERGY_PROPNAME, "{:.4f}".format(conf_energy))
             except (IndexError, TypeError):
                 pass
